@@ -40,7 +40,47 @@ type faultInput struct {
 }
 
 func faultInputs() []faultInput {
-	return append(faultBuildInputs(), faultMergeInputs()...)
+	return append(append(faultBuildInputs(), faultMergeInputs()...), extFaultInputs()...)
+}
+
+// numBaseFaultInputs: the inputs of the quick tier; the thorough tier adds extFaultInputs.
+func numBaseFaultInputs() int { return len(faultBuildInputs()) + len(faultMergeInputs()) }
+
+// extFaultInputs (thorough tier): every item of the text and synonym menus as a build,
+// and every ordered pair of text-menu items (nothing dropped; first document of the first
+// and last document of the second input dropped) and of synonym-menu items as a merge.
+func extFaultInputs() []faultInput {
+	return append(extBuildInputs(), extMergeInputs()...)
+}
+
+func extBuildInputs() []faultInput {
+	var rv []faultInput
+	for i, b := range enum.TextMenu() {
+		rv = append(rv, faultInput{fmt.Sprintf("build of text menu item %d", i), []spec.Batch{b}, nil})
+	}
+	for i, b := range enum.SynMenu() {
+		rv = append(rv, faultInput{fmt.Sprintf("build of synonym menu item %d", i), []spec.Batch{b}, nil})
+	}
+	return rv
+}
+
+func extMergeInputs() []faultInput {
+	var rv []faultInput
+	tm, sm := enum.TextMenu(), enum.SynMenu()
+	for i, x := range tm {
+		for j, y := range tm {
+			rv = append(rv, faultInput{fmt.Sprintf("merge of text menu items %d,%d", i, j), []spec.Batch{x, y}, [][]int{nil, nil}})
+			if len(x.Docs) > 0 && len(y.Docs) > 0 {
+				rv = append(rv, faultInput{fmt.Sprintf("merge of text menu items %d,%d with deletions", i, j), []spec.Batch{x, y}, [][]int{{0}, {len(y.Docs) - 1}}})
+			}
+		}
+	}
+	for i, x := range sm {
+		for j, y := range sm {
+			rv = append(rv, faultInput{fmt.Sprintf("merge of synonym menu items %d,%d", i, j), []spec.Batch{x, y}, [][]int{nil, {}}})
+		}
+	}
+	return rv
 }
 
 func faultBuildInputs() []faultInput {
@@ -361,7 +401,7 @@ func init() {
 		Level:       "fault_enumeration",
 		Rule:        "deviation enumeration on the real write paths: for each of 13 inputs (builds: small, multi-field with doc values, synonyms, empty batch, composite field, varint-boundary values, a stored value larger than the write buffer; merges of 2-3 segments with and without deletions, synonyms, overlapping field lists, without survivors, byte-copy path with varint-boundary values): WriteTo(w) with w failing at EVERY byte offset 0..len-1, once as (short count, error) and once as an all-or-nothing writer returning (0, error) for the write that would cross the offset; Persist(path) and Merge(...,path) under RLIMIT_FSIZE = N for EVERY N in [0, size) (a real torn write at byte N followed by EFBIG; DefaultFileMergerBufferSize = 16 so that flush boundaries are dense); plus the fault-free run of each; in the instrumented flavour (package os replaced by a shim in the write paths) also the failure of the n-th Write call on the file handle for EVERY n, of Sync and of Close; the whole enumeration is repeated in the instrumented flavour under both orders in which the two sections can be laid out (in the plain flavour the order is whatever the Go runtime picks). Oracle: every fault yields a non-nil error and, for the path-based operations, no file at the path; the fault-free run yields identical Persist/WriteTo bytes, a footer with count/chunk mode/version 16/CRC-32 (independent decoder), re-opens to the reference content, and Merge's maps and size are right. Non-trivial = one (input, operation, fault offset) whose fault was actually triggered.",
 		Assumptions: []string{"Sync / Close / n-th-Write-call failures of the file handle are injected through a build-time replacement of package os in the write paths (instrumented flavour)", "the size of an output depends on the order in which sections are laid out (Go map order changes varint lengths of offsets): a run whose output is shorter than the fault offset is accepted iff it is a complete correct output", "output paths do not exist before the call"},
-		Bounds:      map[string]string{"quick": "13 inputs, every byte offset of every output (2 legal WriteTo failure modes; Persist for the 7 build inputs; Merge for the 6 merge inputs), random section order + both section orders", "thorough": "same: the fault space is enumerated completely in both tiers"},
+		Bounds:      map[string]string{"quick": "13 inputs, every byte offset of every output (2 legal WriteTo failure modes; Persist for the 7 build inputs; Merge for the 6 merge inputs), random section order + both section orders", "thorough": "the 13 inputs plus 16 more builds (every text / synonym menu item) and 226 more merges (every ordered pair of text menu items without and with deletions, every ordered pair of synonym menu items): every byte offset of every output, handle faults at every Write call"},
 		Flavours:    func(string) []string { return []string{"plain", "inst"} },
 		New:         func() interface{} { return &FaultCase{} },
 		Gen: func(tier string, emit func(interface{})) {
@@ -371,13 +411,16 @@ func init() {
 				perms = 2 // both orders of the two sections
 			}
 			for perm := 0; perm < perms; perm++ {
-				nb := len(faultBuildInputs())
-				for i := range faultInputs() {
+				for i, in := range faultInputs() {
+					if tier == "quick" && i >= numBaseFaultInputs() {
+						break
+					}
+					isBuild := in.drops == nil
 					for _, op := range []string{"writeto-err", "writeto-short", "persist", "merge"} {
-						if i >= nb && op != "merge" {
+						if !isBuild && op != "merge" {
 							continue
 						}
-						if i < nb && op == "merge" {
+						if isBuild && op == "merge" {
 							continue
 						}
 						for s := 0; s < of; s++ {
